@@ -56,6 +56,8 @@ for pid, text, tech in [
      "property-based testing: differential against textual substitution over generated file trees (Hypothesis)"),
     ("C20", "Generated-input search: Unicode documents through open / load / loads / save / dump / dumps on real files and streams, and the mappyfile command run as real subprocesses over drawn file sets and options; oracle: differential between front ends, string survival, in-process API results as the expectation for CLI output bytes, stdout lines and exit status (boundaries 255 / 256 / 257 always exercised).",
      "property-based testing: differential between front ends, subprocess CLI against in-process API (Hypothesis)"),
+    ("C12", "Generated-input search: structural snapshots of every argument before / after each public call (purity), a Hypothesis rule-based state machine reusing one Parser / MapfileToDict / PrettyPrinter / Validator across documents, failing inputs, flags and versions compared with fresh objects (history independence), and 16-thread stress of the module-level API under a 1 microsecond switch interval compared with sequential results.",
+     "property-based testing: snapshot oracle, Hypothesis stateful machine (differential reused vs fresh), thread stress vs sequential"),
     ("C16", DOC + "oracle: an independent reader of the printed text checks the layout contract line by line.",
      "property-based testing: independent reader / validity predicate over documents x option sets (Hypothesis)"),
     ("C17", "Exhaustive breadth-first exploration of every reachable state over a small key/value alphabet with every operation applied in every state, exhaustive operation sequences from the empty dict up to a length bound, and a Hypothesis rule-based state machine for long histories; oracle: reference model (OrderedDict keyed by lower-cased keys + default rule).",
